@@ -989,18 +989,7 @@ SUBCHECKS = [
         rule="generated programs (0-3 UDFs incl. recursive and argument-mutating ones, subroutines, begin/end, 1-7 main statements nested up to depth 3) vs the Python reference interpreter, line by line"),
 ]
 
-def _k_udf_fatal(sub, case, message, detail):
-    return sub == "reference_interpreter" and bool(detail) and detail.get("fatal_in_udf") is True and "but mlr exits 0" in message
-
-
-def _p_udf_fatal(mlr):
-    r = mlr(["-n", "put", "func f() { int a = 0; var a = 1; return a } end { print f() }"])
-    return r.rc == 0
-
-
-KNOWN = {
-    "fatal-error-inside-udf-becomes-error-value": {"match": _k_udf_fatal, "probe": _p_udf_fatal},
-}
+KNOWN = {}
 
 
 # --------------------------------------------------------------------------------------------
